@@ -328,6 +328,14 @@ def parse_set_cookie_headers(headers: Sequence[str]) -> list[tuple[str, Morsel[s
                     break
                 elif current_morsel is not None:
                     # Regular attribute with value
+                    if lower_key == "expires" and ";" not in header[match.end("val") : i]:
+                        # A date in a shape the pattern above does not know
+                        # stops at its first space: the attribute value runs
+                        # up to the next ";" (RFC 6265 section 5.2).
+                        semi = header.find(";", i)
+                        end = n if semi == -1 else semi
+                        value = f"{value} {header[i:end].strip()}".strip()
+                        i = end + 1
                     current_morsel[lower_key] = _unquote(value)
             elif value is not None:
                 # This is a cookie name=value pair
@@ -354,6 +362,10 @@ def parse_set_cookie_headers(headers: Sequence[str]) -> list[tuple[str, Morsel[s
                     else:
                         parsed_cookies.append((key, current_morsel))
                         morsel_seen = True
+            elif morsel_seen and ";" in header[i:]:
+                # Junk between two ";" must not cost the cookie the
+                # attributes that follow it (Secure, Path, ...): skip it.
+                i = header.index(";", i) + 1
             else:
                 # Invalid cookie string - no value for non-attribute
                 break
